@@ -12,6 +12,7 @@ mod ctx;
 mod md;
 mod live;
 mod c15;
+mod tl;
 
 fn main() {
     let argv: Vec<String> = std::env::args().collect();
@@ -30,6 +31,7 @@ fn main() {
         "ctxuc" => ctx::run_ucontext(&a),
         "ctxpt" => ctx::run_ptrace(&a),
         "c15" => c15::run(&a),
+        "tl" => tl::run(&a),
         x => { eprintln!("unknown subcommand {x}"); std::process::exit(2); }
     }
 }
